@@ -42,13 +42,14 @@ struct Case
     RtConfig cfg;
     std::vector<PoolSpec> pools;
     std::vector<Job> jobs;
+    bool focus = false;
 };
 
 static Case decode(tape_t const& tape)
 {
     Tape t(tape);
     Case c;
-    c.cfg = decode_config(t, {S_SL_AFTER_RUN, S_DO_YIELD, S_STS_BEFORE_SCHEDULE, S_CV_WAIT});
+    c.cfg = decode_config(t, {S_SL_AFTER_RUN, S_DO_YIELD, S_STS_BEFORE_SCHEDULE, S_CV_WAIT, S_STS_ENTRY, S_STS_ENTRY});
     int np = 1 + t.weighted({2, 4, 3, 2});
     int total = 0;
     for (int i = 0; i < np; ++i)
@@ -84,6 +85,31 @@ static Case decode(tape_t const& tape)
         }
         c.jobs.push_back(std::move(job));
     }
+    // focus template for the static-hint clause: one pool gets a static policy, most hops are sent there with a
+    // worker hint at normal priority and suspend inside, and the wake-up path (set_thread_state entry, cv wait,
+    // before the state CAS) gets a mandatory delay, so that wake-ups overlap the suspension they answer
+    c.focus = t.chance(1, 4);
+    if (c.focus)
+    {
+        int sp = static_cast<int>(t.below(static_cast<std::uint32_t>(np)));
+        c.pools[static_cast<std::size_t>(sp)].policy = t.pick({3, 4});
+        int psz = c.pools[static_cast<std::size_t>(sp)].size;
+        for (auto& job : c.jobs)
+            for (auto& hop : job.hops)
+            {
+                if (hop.kind == H_BULK || hop.kind == H_STD_THREAD || !t.chance(2, 3)) continue;
+                hop.pool = sp;
+                hop.hint = static_cast<int>(t.below(static_cast<std::uint32_t>(psz)));
+                hop.prio = 0;
+                hop.body = t.pick({B_SUSPEND, B_YIELD_SUSPEND, B_SUSPEND, B_YIELD});
+            }
+        Perturb p;
+        p.site = t.pick({S_STS_ENTRY, S_STS_ENTRY, S_CV_WAIT, S_STS_BEFORE_CAS, S_STS_BEFORE_SCHEDULE});
+        p.period = 1;
+        p.action = t.pick({0, 2});
+        p.dur = 2 + static_cast<int>(t.below(4));
+        c.cfg.plan.push_back(p);
+    }
     return c;
 }
 
@@ -102,7 +128,10 @@ static std::string describe(tape_t const& tape)
             os << hop_names[h.kind] << "(p" << h.pool << (h.hint >= 0 ? ",hint" + std::to_string(h.hint) : "") << (h.prio == 1 ? ",high" : h.prio == 2 ? ",low" : "") << ")[" << body_names[h.body] << "] ";
         os << "\"";
     }
-    os << "], \"plan\": " << c.cfg.plan.size() << ", \"stealing\": " << (c.cfg.stealing ? "true" : "false") << "}";
+    os << "], \"plan\": [";
+    for (std::size_t i = 0; i < c.cfg.plan.size(); ++i)
+        os << (i ? ", " : "") << "\"site" << c.cfg.plan[i].site << "/" << c.cfg.plan[i].period << "/" << (c.cfg.plan[i].action == 0 ? "spin" : c.cfg.plan[i].action == 1 ? "yield" : "sleep") << "/" << dur_ns[c.cfg.plan[i].dur] << "ns\"";
+    os << "], \"static_hint_focus\": " << (c.focus ? "true" : "false") << ", \"stealing\": " << (c.cfg.stealing ? "true" : "false") << "}";
     return os.str();
 }
 
@@ -161,7 +190,8 @@ static void hop_body(World& W, int job, int hop_idx, unsigned long long submit_a
         {
             W.hinted_static_phases.fetch_add(1);
             if (static_cast<int>(lw) != h.hint)
-                fail_now("hint_not_honoured", where() + ": static policy, normal priority, hint " + std::to_string(h.hint) + ", but phase '" + phase + "' ran on local worker " + std::to_string(lw));
+                fail_now("hint_not_honoured", where() + ": static policy, normal priority, hint " + std::to_string(h.hint) + ", but phase '" + phase + "' ran on local worker " + std::to_string(lw) +
+                        " [hook events of this task: " + dump_trace(pika::threads::detail::get_thread_id_data(self)) + "]");
         }
         {
             std::lock_guard<std::mutex> l(W.m);
@@ -256,6 +286,7 @@ static Outcome run(tape_t const& tape)
 {
     Case c = decode(tape);
     restrict_cpus(0);
+    enable_recorder();
     install_hook(c.cfg);
     G().user_hook = [](int site, void const*, std::uint64_t, std::uint64_t) {
         if (site == S_SL_BEFORE_RUN) tl_activation = g_serial.fetch_add(1) + 1;
@@ -348,6 +379,7 @@ static Outcome run(tape_t const& tape)
     for (auto const& p : c.pools) pol.insert(p.policy);
     out.nontrivial = (c.pools.size() >= 2 && pol.size() >= 2 && W.pool_crossings.load() >= 2) || W.hinted_static_phases.load() >= 3;
     out.tags.push_back("pools:" + std::to_string(c.pools.size()));
+    if (c.focus) out.tags.push_back("template:static_hint_focus");
     if (W.hinted_static_phases.load() >= 3) out.tags.push_back("saw:hinted_static_task_3_phases");
     if (W.pool_crossings.load() >= 2) out.tags.push_back("saw:pipeline_crossing_pools_twice");
     for (auto const& p : c.pools) out.tags.push_back(std::string("policy:") + pool_policy_names[p.policy]);
